@@ -328,7 +328,10 @@ class TheCheck(Check):
                     "big %d %d md5 m32 m128" % (P30 + 7, sd()),
                     "big %d %d md5 fnv32 fnv64 m32 m128" % (P31 - 1, sd()),
                     "big %d %d md5" % (P31 + 5, sd()), "big %d %d md5" % (3 * P30, sd()),
-                    "big %d %d md5" % ((1 << 32) - 64, sd())]
+                    "big %d %d md5" % ((1 << 32) - 64, sd()),
+                    # FNV-1 takes a size_t: lengths at and beyond 2^32 (a 32-bit loop counter stops early)
+                    "big %d %d fnv32 fnv64" % ((1 << 32) - 1, sd()), "big %d %d fnv32 fnv64" % (1 << 32, sd()),
+                    "big %d %d fnv32 fnv64" % ((1 << 32) + 1000, sd())]
         sts.append(Stream("huge-inputs", ops, nomodel=True, note="impl vs oracle only; exactly sized buffers"))
         # 3d. the length bookkeeping of ONE MD5Update call (model: countUpdate/bufIndex without data):
         #     many cheap lengths from preset counts, and lengths >= 2^29 (the `>> 29` term)
